@@ -10,6 +10,7 @@
 # information at https://github.com/ddsmt/ddSMT/blob/master/LICENSE.
 
 import io
+import os
 import typing
 
 from .nodes import Node
@@ -240,9 +241,20 @@ def write_smtlib(file: typing.TextIO, exprs: typing.List[Node]):
 
 
 def write_smtlib_to_file(filename: str, exprs: typing.List[Node]):
-    """Use ``write_smtlib`` to write to a filename."""
-    with open(filename, 'w') as file:
-        write_smtlib(file, exprs)
+    """Use ``write_smtlib`` to write to a filename.
+
+    The file is replaced atomically: readers (and a user who interrupts
+    ddSMT) see either the complete previous or the complete new content.
+    """
+    tmpname = f'{filename}.tmp-{os.getpid()}'
+    try:
+        with open(tmpname, 'w') as file:
+            write_smtlib(file, exprs)
+        os.replace(tmpname, filename)
+    except BaseException:
+        if os.path.exists(tmpname):
+            os.unlink(tmpname)
+        raise
 
 
 def write_smtlib_to_str(exprs: typing.List[Node]):
